@@ -114,8 +114,8 @@ func ConformingParse(raw []byte) (*etree.Document, error) {
 type SigFacts struct {
 	Present       bool
 	Count         int
-	IndexInParent int    // position among the root's child elements
-	AfterIssuer   bool   // element immediately before the Signature is Issuer
+	IndexInParent int  // position among the root's child elements
+	AfterIssuer   bool // element immediately before the Signature is Issuer
 	RefURI        string
 	SigMethod     string
 	C14NMethod    string
@@ -277,10 +277,10 @@ func HTMLNewlineNorm(s string) string {
 // ---- redirect binding ------------------------------------------------------------------------
 
 type RedirectParts struct {
-	Base   string              // scheme://host/path as sent
-	Raw    [][2]string         // raw (percent-encoded) key/value pairs in URL order
-	ByKey  map[string][]string // raw values by decoded key
-	RawQ   string
+	Base  string              // scheme://host/path as sent
+	Raw   [][2]string         // raw (percent-encoded) key/value pairs in URL order
+	ByKey map[string][]string // raw values by decoded key
+	RawQ  string
 }
 
 // SplitRedirect splits the raw query string itself (no library decoding of values).
